@@ -30,6 +30,18 @@ func extensionOps(d *rj.Value) []r69.Op {
 	return ops
 }
 
+// extensionAt: further operations aimed at the location the failing operation named (a fused or peephole
+// execution of "remove then add at the same path" must not turn the failure into a success).
+func extensionAt(failing r69.Op) []r69.Op {
+	one := rj.MustParse(`1`)
+	p := failing.Path
+	ops := []r69.Op{{Kind: "add", Path: p, Value: one, HasValue: true}, {Kind: "replace", Path: p, Value: one, HasValue: true}, {Kind: "remove", Path: p}}
+	if failing.From != "" {
+		ops = append(ops, r69.Op{Kind: "add", Path: failing.From, Value: one, HasValue: true})
+	}
+	return ops
+}
+
 func judgeC08(r *seqRun) {
 	if !judgeResult(r, false) {
 		return
@@ -74,6 +86,9 @@ func judgeC08(r *seqRun) {
 		ext := extensionOps(r.doc)
 		if len(base) >= 2 {
 			ext = []r69.Op{ext[0], ext[5]} // the two that would turn the failure into a success
+		}
+		if lk := base[len(base)-1].Kind; lk == "remove" || lk == "move" {
+			ext = append(ext, extensionAt(base[len(base)-1])...)
 		}
 		for _, x := range ext {
 			r.ops = append(append([]r69.Op(nil), base...), x)
@@ -429,6 +444,22 @@ func judgeC18(r *seqRun) {
 			r.viol("missed-failure", "missed-failure:"+k+":"+c.String(), fmt.Sprintf("reference fails at op %d (%s), legacy Apply returns %s", r.ref.FailAt, c, r.obs.Out))
 		} else if !r.obs.OutNil {
 			r.viol("document-on-failure", "document-on-failure:"+k, fmt.Sprintf("error %q with document %q", r.obs.Err, r.obs.Out))
+		}
+		// the failing operation need not be the last one: with further operations behind it - aimed at the very
+		// location it named - the patch must still fail and return no document
+		if r.ref.FailAt == len(r.ops)-1 && r.obs.Err != "" && (k == "remove" || k == "move") {
+			base := r.ops
+			for _, x := range extensionAt(base[len(base)-1]) {
+				r.ops = append(append([]r69.Op(nil), base...), x)
+				o2 := r.exec("")
+				r.ctx.Count("extension_runs", 1)
+				if o2.Panic != "" {
+					r.viol("panic", "panic:"+impl.PanicSite(o2.Panic), o2.Panic)
+				} else if o2.Err == "" || !o2.OutNil {
+					r.viol("later-op-changes-outcome", "later-op-changes-outcome:"+k+"+"+x.Kind, fmt.Sprintf("the patch fails at its last operation (%s); with one more operation behind it (%s) legacy Apply returns err=%q out=%q", c, x, o2.Err, o2.Out))
+				}
+			}
+			r.ops = base
 		}
 		return
 	}
